@@ -113,14 +113,16 @@ def showV : VOut (List Nat) → String
   | .default => "default"
   | .error e => s!"err {e.name}"
 
-/-- `3` → (3, false); `3n` → (3, true) (the object is `None`). -/
+/-- `3` → (3, false); `3n` → (3, true) (the object is `None`); `3~2` = value flavour 2 of type 3
+(length / content of an awkward adaptee: opaque to the model, which only sees the type). -/
 def parseSrc (s : String) : Option (Nat × Bool) :=
-  let s := clean s
+  let s := clean (((clean s).splitOn "~").headD "")
   if s.endsWith "n" then (nat? (s.dropEnd 1).toString).map (·, true) else (nat? s).map (·, false)
 
 def runQuery (cfg : Cfg) (ft : FTab) (q : String) : String :=
   let f := mkFactory ft (((words q).getD ((words q).length - 2) "").endsWith "n")
-  match words q with
+  -- `ga` / `gd` / `gs`: the module-level `adapt` / `supports_protocol` (same function, global manager)
+  match (match words q with | "ga" :: r => "a" :: r | "gd" :: r => "d" :: r | "gs" :: r => "s" :: r | ws => ws) with
   | ["a", s, t] =>
     match parseSrc s, nat? t with
     | some (s, _), some t =>
